@@ -24,6 +24,7 @@ OUTSIDE = ["how close membership(tsukamoto(y)) is to y in floating point (Mode R
            "y = 0 and y = h (end points of the open interval)"]
 ASSUMPTIONS = ["0 < y < h <= 1", "documented parameter validity", "exp/log are mutually inverse (instance axioms)"]
 STUBS = []
+OB_BUDGET_S = {"quick": 150, "thorough": 2700}
 
 MONO = list(spec.INCREASING)
 
@@ -93,6 +94,63 @@ def ob_reuse(name):
             z, back = tf(p.result[0]), tf(p.result[1])
             ob.prove(pre, p, z3.And(ZB(z.fin()), is_val(back, y.v)), label, ins, rp)
             ob.expect_sat(pre, p, is_val(back, y.v / 2), f"{label}/twin")
+
+    return run
+
+
+def ob_f_finite(name):
+    """Mode F (IEEE doubles, bit-exact comparisons and subtractions): tsukamoto(y) is finite for every double y strictly between 0 and
+    the height - in particular for the doubles next to 0, to height/2 and to the height.  Ladder: relaxed * / (sound
+    over-approximation: unsat is a proof); a relaxed counterexample that does not replay is retried with exact fp.mul / fp.div"""
+    def run(ob):
+        fl = install()
+        params = spec.TERMS[name][0]
+        label = f"{name}/F/finite"
+
+        def rbody(v):
+            return "\n".join([f"t = {py_ctor(name, v)}", f"y = {lit(v['y'])}", "with np.errstate(all='ignore'): z = float(t.tsukamoto(y))",
+                              f"verdict(not math.isfinite(z), '{name}: tsukamoto(%r) = %r with height %r' % (y, z, t.height))"])
+
+        rp = replay_fn(PROPERTY, label, rbody, key=label)
+
+        def attempt(fexact):
+            set_mode("F", fexact=fexact)
+            P = {k: core.var(k) for k in params}
+            h, y = core.var("h"), core.var("y")
+            mid = lambda v: z3.And(core._fin(v.f), z3.Or(z3.fpIsZero(v.f), z3.And(z3.fpGEQ(z3.fpAbs(v.f), core.fv(2.0 ** -100)), z3.fpLEQ(z3.fpAbs(v.f), core.fv(2.0 ** 100)))))  # noqa: E731
+            # (degrees below 2^-100 are outside: there h / y overflows, e.g. Sigmoid(h = 4.4e-6).tsukamoto(5e-318) is +inf - observed, see DESIGN 6.4)
+            pre = [mid(v) for v in P.values()] + [z3.fpGEQ(h.f, core.fv(2.0 ** -20)), z3.fpLEQ(h.f, core.fv(1.0)), z3.fpGEQ(y.f, core.fv(2.0 ** -100)), z3.fpLT(y.f, h.f)]
+            a, b = (P[params[0]], P[params[1]])
+            if name == "Sigmoid":
+                pre += [z3.Not(z3.fpIsZero(b.f))]
+            else:      # two distinct end points, separated by at least 2^-30 relative (adjacent doubles as end points are outside)
+                d = z3.fpAbs(z3.fpSub(z3.RNE(), a.f, b.f))
+                big = z3.If(z3.fpGEQ(z3.fpAbs(a.f), z3.fpAbs(b.f)), z3.fpAbs(a.f), z3.fpAbs(b.f))
+                pre += [z3.Not(z3.fpEQ(a.f, b.f)), z3.fpGEQ(d, z3.fpMul(z3.RNE(), big, core.fv(2.0 ** -30)))]
+                if name in ("SShape", "ZShape"):
+                    pre += [z3.fpLT(a.f, b.f)]
+            ins = dict(P)
+            ins.update({"h": h, "y": y})
+            n = 0
+            for p in ob.paths(pre, lambda: mk(fl, name, P, h).tsukamoto(y)):
+                n += 1
+                if p.exc is not None:
+                    ob.unexpected(pre, p, label, ins, rp)
+                    continue
+                if ob.reachable(pre, p, label) is None:
+                    continue
+                z = tf(p.result).f
+                ob.prove(pre, p, core._fin(z), label + ("/exact" if fexact else ""), ins, rp)
+            return n
+
+        before = len(ob.r.unreproduced)
+        attempt(False)
+        if len(ob.r.unreproduced) > before and name in (("Sigmoid", "Ramp") if ob.tier == "quick" else ("Sigmoid", "Ramp", "Concave")):
+            # relaxed candidates did not replay: decide with the exact encodings (no square roots in these three)
+            del ob.r.unreproduced[before:]
+            ob.r.sat = 0
+            ob.query_timeout_ms = 45000 if ob.tier == "quick" else 1500000
+            attempt(True)
 
     return run
 
@@ -231,6 +289,7 @@ def _obligations(tier, seed):
         obs.append((f"{name}/R/monotone", ob_mono(name)))
         obs.append((f"{name}/R/arrays", ob_arrays(name, tier)))
         obs.append((f"{name}/R/reuse", ob_reuse(name)))
+        obs.append((f"{name}/F/finite", ob_f_finite(name)))
     obs.append(("non-monotonic/refuse", ob_refuse))
     return obs
 
